@@ -75,7 +75,7 @@ def generate(rng, n, tier, stats):
                 stats['history_op']['append_axis'] += 1
         for _ in range(rng.randint(1, maxlen)):
             kinds = ['set_new', 'set_new', 'set_replace', 'reject', 'reject', 'reject', 'del', 'rename_axis', 'var_rename_axis', 'set_dims', 'append_axis',
-                     'rename_axes', 'set_label', 'set_axis', 'replace_axis', 'set_axis', 'replace_axis', 'rename_key', 'rename_keys_multi']
+                     'rename_axes', 'set_label', 'set_axis', 'replace_axis', 'set_axis', 'replace_axis', 'rename_key', 'rename_keys_multi', 'rename_keys_multi']
             # an axis is named by its name or by its POSITION IN THE DATASET (which is not its position in a variable that lacks an
             # earlier dimension or lists its dimensions in another order): positions other than 0 are preferred
             byname = lambda i: rng.random() < (0.3 if i > 0 else 0.5)
@@ -165,7 +165,10 @@ def generate(rng, n, tier, stats):
                 if len(have) < 2: continue
                 m = rng.sample(have, rng.randint(2, len(have)))
                 tgt = m[1:] + (m[:1] if rng.random() < 0.6 else [[x for x in ('z9', 'z8', 'z7', 'z6') if x not in have][0]])
-                if len(set(tgt)) != len(tgt) or any(t_ in have and t_ not in m for t_ in tgt): continue
+                if rng.random() < 0.4:
+                    # two variables sent to the same key: refused (one of them would be lost), the dataset stays as it was
+                    tgt = ['z5'] * len(m); stats['rename_keys_many_to_one']['yes'] += 1
+                elif len(set(tgt)) != len(tgt) or any(t_ in have and t_ not in m for t_ in tgt): continue
                 op = ['rename_keys_multi', [[a_, b_] for a_, b_ in zip(m, tgt)]]
             else:
                 if not have: continue
@@ -313,7 +316,10 @@ def oracle(c, res):
                 if st['op'][4]: want_dims[i_] = st['op'][4]
                 if o['dims'] != want_dims:
                     return 'after step %d: set_axis(%r%s) - the dataset reports dims %r, expected %r (same dimensions, same order)' % (k, ref, ', inplace=False' if len(st['op']) > 5 else '', o['dims'], want_dims)
-        if st['op'][0] == 'rename_keys_multi':
+        if st['op'][0] == 'rename_keys_multi' and len(set(b_ for a_, b_ in st['op'][1])) != len(st['op'][1]):
+            if r['status'] != 'ValueError': return 'rename_keys(%r) sends two variables to one key and gave %r instead of ValueError' % (st['op'][1], r['status'])
+            if json.dumps(o, sort_keys=True, default=str) != json.dumps(prev, sort_keys=True, default=str): return 'step %d: the refused rename_keys changed the dataset' % k
+        elif st['op'][0] == 'rename_keys_multi':
             if r['status'] is not None: return 'rename_keys(%r) raised %s' % (dict(map(tuple, st['op'][1])), r['status'])
             m = dict(map(tuple, st['op'][1])); pv = {v['key']: v['arr'] for v in prev['vars']}; nv = {v['key']: v['arr'] for v in o['vars']}
             want = {m.get(k_, k_): a_ for k_, a_ in pv.items()}
